@@ -212,6 +212,18 @@ func checkDamaged(s Stream, data []byte, ends []int, rows []vgen.Row, dmg []Dama
 				return fmt.Errorf("damage %v: delivered row %d = %v is not the row that was written", dmg, i, res.Rows[i])
 			}
 		}
+		// A Read that reports n > 0 rows together with its error has delivered those rows (ReadFull,
+		// MultiReader and every io.Reader-style caller account for n before looking at the error):
+		// they must be correct rows of an undamaged batch like any other delivered row.
+		for j, row := range res.ErrRows {
+			i := len(res.Rows) + j
+			if i >= len(rows) || !vgen.EqRow(row, rows[i]) {
+				return fmt.Errorf("damage %v: the failing read (%v) reported %d rows as read; row %d = %v is not the row that was written", dmg, res.Err, len(res.ErrRows), i, row)
+			}
+		}
+		if inside && len(res.Rows)+len(res.ErrRows) > before {
+			return fmt.Errorf("damage %v inside batch %d: %d rows reported as read (%d of them together with the error), only %d precede the damaged batch", dmg, k, len(res.Rows)+len(res.ErrRows), len(res.ErrRows), before)
+		}
 		if inside {
 			if res.Err == nil {
 				return fmt.Errorf("damage %v inside batch %d: reader reported a clean end of stream after %d rows (stream has %d)", dmg, k, len(res.Rows), len(rows))
